@@ -157,3 +157,14 @@ macro_rules! harness {
         pub fn $name() $body
     };
 }
+
+/// A function that only exists natively (behaviour after real unwinding, which Kani cannot
+/// model). It is callable through the replay binary like a harness.
+#[macro_export]
+macro_rules! native_only {
+    (fn $name:ident() $body:block) => {
+        #[cfg(not(kani))]
+        #[allow(unused_mut, unused_variables)]
+        pub fn $name() $body
+    };
+}
